@@ -64,6 +64,7 @@ int main(void)
 	setvbuf(stdout, NULL, _IOLBF, 0);
 	while (fgets(line, sizeof(line), stdin)) {
 		int n = tokenize(line, tok, 512);
+		h_watchdog(5);
 		if (n == 0) { puts("bad-op"); continue; }
 		if (strcmp(tok[0], "writen") == 0 && n >= 2) {
 			const char *arr[512]; size_t l;
